@@ -492,6 +492,9 @@ def check(case):
         exact_dup = any(s2 is not s and s2['kind'] == s['kind']
                         and list(s2['params']) == list(s['params'])
                         and s2.get('tr') == s.get('tr')
+                        # ... which is the card the surface is written under
+                        # (de-duplication renumbers the flagged card to it)
+                        and s2['id'] in ws
                         for s2 in deck['surfaces'])
         if s['id'] not in ws and ws <= unflagged_written and not exact_dup:
             # the flagged card itself is not written (its piece was pruned)
